@@ -73,7 +73,19 @@ MUTANTS = [
     ('C05-m21', 'C05', 'C05-m', SRC + 'util/str_/read_lines.py',
      "    for line in lines:\n        actual_lines.append(line)\n        actual_read += len(line)",
      "    for line in lines:\n        actual_read += len(line)\n        if actual_read > min_num_chars_to_read:\n            break\n        actual_lines.append(line)"),
-    ('C05-m22', 'C05', 'C05-e', SRC + 'impls/types/matcher/impls/quantifier_matchers.py', None, None),
+    ('C05-m22', 'C05', 'C05-n', SRC + 'impls/types/string_transformer/impl/strip_space.py',
+     "            while num_empty_lines_skipped != 0:", "            while num_empty_lines_skipped > 1:"),
+    ('C05-m23', 'C05', 'C05-n', SRC + 'impls/types/string_transformer/impl/strip_space.py',
+     "    if line_before_counted_empty_lines[-1] == '\\n':\n        last_line = line_before_counted_empty_lines[:-1]\n    else:\n        last_line = line_before_counted_empty_lines",
+     "    last_line = line_before_counted_empty_lines[:-1]"),
+    ('C05-m24', 'C05', 'C05-n', SRC + 'impls/types/string_transformer/impl/strip_space.py',
+     "    yield non_empty_line.rstrip()\n", "    yield non_empty_line.strip()\n"),
+    ('C05-m25', 'C05', 'C05-n', SRC + 'impls/types/string_transformer/impl/strip_space.py',
+     "            yield line_before_empty_lines_list\n            for empty_line in empty_lines_skipped:\n                yield empty_line\n",
+     "            yield line_before_empty_lines_list\n"),
+    ('C05-m26', 'C05', 'C05-n', SRC + 'impls/types/string_transformer/impl/strip_space.py',
+     "    for non_empty_line in lines:\n        if not non_empty_line.isspace():\n            break\n    else:\n        return\n",
+     "    for non_empty_line in lines:\n        break\n    else:\n        return\n"),
 ]
 
 
